@@ -77,6 +77,9 @@ Section Spec.
   (* K_outside: the action names a file outside the workspace directories *)
   Definition k_outside (a : action A) : bool := existsb (fun f => negb (in_dir A f)) (action_files a).
 
+  (* no action of the history names a file outside the workspace directories *)
+  Definition inside_only (h : list (action A)) : bool := forallb (fun a => negb (k_outside a)) h.
+
   (* K_live_cleared (12a): a file keeps its live (unsaved-buffer) entry across the action while its saved list changes and
      the new saved map is not empty: pushAllDiagnosticsAgain overwrites the live syntax errors on the client *)
   Definition k_live_cleared (w : world A) (w' : world A) : bool :=
